@@ -1073,6 +1073,8 @@ pub fn handle(st: &mut State, line: &str) -> String {
             "TLSPLAIN" => crate::net::tls_plain(st, &mut t),
             "TLSSNI" => crate::net::tls_sni(st, &mut t),
             "TLSSWAP" => crate::net::tls_swap(st, &mut t),
+            "TLSTWO" => crate::net::tls_two(st, &mut t),
+            "NETSLOWHS" => crate::net::slow_handshake(st, &mut t),
             "NETAGED" => crate::net::aged(st, &mut t),
             "TLSROT" => crate::net::tls_rotate(st, &mut t),
             "TLSHIST" => crate::net::tls_history(st, &mut t),
